@@ -50,6 +50,14 @@ pub fn run_c04(cx: &Ctx) -> i32 {
             }
         }
     }
+    for class in ["[ab]", "[^a]", "\\w", "[a-b]"] {
+        let c = || Node::Raw(class.to_string(), 1);
+        for sep in [ast::cat(vec![Node::Assert(ast::A::WordB), ast::lit("-")]), Node::Assert(ast::A::NotWordB), ast::lit("-")] {
+            scoped.push(ast::cat(vec![Node::FlagGroup("i".into(), Box::new(ast::plus(c()))), sep.clone(), ast::plus(c())]));
+            scoped.push(ast::cat(vec![ast::plus(c()), sep.clone(), Node::FlagGroup("i".into(), Box::new(ast::plus(c())))]));
+            scoped.push(ast::cat(vec![Node::FlagGroup("i".into(), Box::new(c())), Node::Assert(ast::A::NotWordB), c()]));
+        }
+    }
     // common-syntax contexts around a word boundary (the only way common syntax reaches the VM):
     // the filler is delegated as one piece next to the boundary
     let quick = cx.quick();
